@@ -193,7 +193,7 @@ class Baselines:
         self.plan = plan
         self.cap = pull_cap
         kn = plan.get("knobs", {})
-        envkey = (repr(sorted((f["vpath"], f.get("backing", ""), f.get("errno", 0))
+        envkey = (repr(sorted((f["vpath"], f.get("backing", ""), f.get("errno", 0), repr(f.get("patches")))
                               for f in plan.get("files", []))),
                   kn.get("deny_mmap", 0), pull_cap, zsim.exe)
         if len(Baselines.SHARED) > Baselines.SHARED_MAX:
